@@ -798,7 +798,8 @@ inline std::string stats_json(const Stats& st)
 inline int sim_main(World& w, int argc, char** argv)
 {
   g_world = &w;
-  std::string mode = "batch", replay_path, props_s, known_s, hashfile, outdir = "replays";
+  std::string mode = "batch", replay_path, props_s, known_s, hashfile, outdir = "replays", dumpfile;
+  FILE* dump = nullptr;
   uint64_t seed = 1, start = 0, count = 100, enum_start = 0, enum_count = 0;
   double time_limit = 1e9;
   bool thorough = false, trace = false, regress = false;
@@ -828,6 +829,8 @@ inline int sim_main(World& w, int argc, char** argv)
       hashfile = nxt();
     else if (a == "--outdir")
       outdir = nxt();
+    else if (a == "--dump-hashes")
+      dumpfile = nxt();
     else if (a == "--time-limit")
       time_limit = atof(nxt().c_str());
     else if (a == "--thorough")
@@ -973,6 +976,8 @@ inline int sim_main(World& w, int argc, char** argv)
   }
 
   // ---- batch
+  if (!dumpfile.empty())
+    dump = fopen(dumpfile.c_str(), "w");
   double t0 = now_s();
   Stats total;
   uint64_t evaluations = 0, det_checked = 0, nontrivial_runs = 0;
@@ -997,6 +1002,8 @@ inline int sim_main(World& w, int argc, char** argv)
     alarm(0);
     evaluations++;
     total.merge(e.st);
+    if (dump)
+      fprintf(dump, "%s %" PRIu64 " %s\n", kind, idx, hex64(e.hash).c_str());
     if (e.nontrivial) {
       nontrivial_runs++;
       distinct.insert(e.hash);
@@ -1068,6 +1075,8 @@ inline int sim_main(World& w, int argc, char** argv)
     handle(p, start + i, rs, "rand");
     done_rand++;
   }
+  if (dump)
+    fclose(dump);
   if (!hashfile.empty()) {
     FILE* f = fopen(hashfile.c_str(), "wb");
     if (f) {
